@@ -53,6 +53,8 @@ def res_key(mech):
             return "hlsl-cbuffer-not-in-namemap", mech
         return None, mech
     if head == "verbatim" and len(f) == 5:
+        if f[2] == "method-clash" and f[3] == "global":
+            return "methods-named-in-namespace-scope", "verbatim:%s:method-clash" % t
         if f[2] == "cbuffer-type-clash" and t == "msl":
             return "msl-cbuffer-struct-takes-user-name", "verbatim:msl:cbuffer-type-clash"
         if f[2] == "generated-clash" and f[3] == "local":
@@ -64,6 +66,9 @@ def res_key(mech):
             return "generated-names-not-reserved", "dup:%s:generated" % t
         if ks & set("CD") and hlsl:
             return "hlsl-cbuffer-not-in-namemap", "dup:%s:cbuffer" % t
+        if ks == {"F", "M"}:
+            # a method renamed by the map (in the root scope) takes the name of a member of its struct
+            return "struct-member-not-in-namemap", "dup:%s:member-method" % t
         if t == "msl" and ks == {"g"}:
             return "msl-threaded-globals-share-leaf-name", "dup:msl:GG"
         if t == "vkba" and ks == {"g"}:
